@@ -603,12 +603,15 @@ class Node:
 
     def _flag_connection_as_ready(self, conn: PeerConnection):
         conn.state = PEER_READY
+        # the peer may hold another (e.g. still connecting) connection as its
+        # registered one; this connection is ready all the same
+        conn_peer = self._find_connection_peer(conn)
         for app_peers in self._peer_routes.values():
             for app, peers in app_peers.items():
                 if not isinstance(app, Application):
                     continue
                 for peer in peers:
-                    if peer.connection == conn:
+                    if peer.connection == conn or peer is conn_peer:
                         app.is_ready.set()
                         break
 
@@ -1494,6 +1497,9 @@ class Node:
                     f"{conn} was last available peer connection for {app}, "
                     f"flagging app as not ready")
                 app.is_ready.clear()
+            else:
+                # e.g. a second connection of the peer has just taken over
+                app.is_ready.set()
 
         self.logger.debug(f"{conn} removed")
 
